@@ -1,10 +1,11 @@
 """C20 - impossible set-ups are refused before the simulation starts."""
 from contracts import model as M
 from contracts import roms_forcing as F
+from contracts import release_init as RI
 from contracts import roms_init as I
 from contracts import timekeeper as K
 
-UNITS = [K.TKInit(True), K.TKInit(False)] + list(K.TK_MISSING) + [I.GridInit(True), I.GridInit(False)] + list(I.SCAN_UNITS) + [F.ForcingStepsCoverage(), F.ForcingInit(), M.ModelInit(False), M.ModelInit(True)] + [u for u in M.LOADER_UNITS if u.unit_name().startswith("model.load_module")]
+UNITS = [K.TKInit(True), K.TKInit(False)] + list(K.TK_MISSING) + [I.GridInit(True), I.GridInit(False)] + list(I.SCAN_UNITS) + [F.ForcingStepsCoverage(), F.ForcingInit(), M.ModelInit(False), M.ModelInit(True)] + [u for u in RI.RELEASE_INIT_UNITS if "no row" in u.unit_name() or "clean_position" in u.unit_name() or "read_release_file" in u.unit_name()] + [u for u in M.LOADER_UNITS if u.unit_name().startswith("model.load_module")]
 LEMMAS = []
 NATIVE = [dict(name="every single fault injected into 8 base scenarios (real configure + Model)", harness="refusals_bounded", kind="bounded", timeout=3000)]
 LEVEL = "other"
